@@ -165,6 +165,8 @@ def handle (mode : String) (line : String) : String :=
         if ga == "2/2" && gb == "1/1" then "ok"
         else s!"violates peers that reach a wildcard-bound datagram server over different local addresses: peer A got {ga} of its responses, peer B {gb} (a response must come from the address its request was sent to, whatever other peers send meanwhile)"
       | _ => "violates unparsable-observation"
+    | "tablerace" :: _ =>
+      if obs.startsWith "race ok" then "ok" else s!"violates one logical connection per peer: {obs}"
     | "serve" :: "udporder" :: _ =>
       match words obs with
       | "order" :: "handled" :: frac :: "ascending" :: [] =>
